@@ -1,9 +1,106 @@
 import Driver.Util
+import Lattigo.Model.CKKS
 
+/-
+  C06 line protocol (all integers):
+    C06 <op> <qs> <lcpr> <prec> <ci> <nthRoot> <logMaxSlots> <galEls> <rlk> <args…> <e0|e1>
+  meta  = level,degree,mant,exp,logSlots      (scale = mant·2^exp, mant odd or 0)
+  dy/sd = mant,exp                             (sd: signed mantissa)
+  output: `level,degree,mant,exp,logSlots eff` (eff = comma list or `-`, only with e1) | err | panic
+    C06 params <dy>   ⇒  `prec lcpr`
+-/
 namespace Driver.C06
-open Driver
+open Driver Lattigo.CKKS
 
-/-- stub: replaced by the property's real handler -/
-def handle (_toks : List String) : String := badOp
+def parseDy? (s : String) : Option Dy :=
+  match parseIVec? s with
+  | some [m, e] => if m < 0 then none else some (Dy.norm m.toNat e)
+  | _ => none
+
+def parseSD? (s : String) : Option SD :=
+  match parseIVec? s with
+  | some [m, e] => some ⟨decide (m < 0), Dy.norm m.natAbs e⟩
+  | _ => none
+
+def parseMeta? (s : String) : Option Meta :=
+  match parseIVec? s with
+  | some [l, d, m, e, ls] =>
+    if l < 0 ∨ d < 0 ∨ m < 0 ∨ ls < 0 then none
+    else some ⟨l.toNat, d.toNat, Dy.norm m.toNat e, ls.toNat⟩
+  | _ => none
+
+def parseBool? (s : String) : Option Bool :=
+  if s == "1" then some true else if s == "0" then some false else none
+
+def parseAlias? (s : String) : Option Alias :=
+  if s == "f" then some .fresh else if s == "0" then some .out0 else if s == "1" then some .out1 else none
+
+def showMeta (m : Meta) : String :=
+  s!"{m.level},{m.degree},{m.scale.m},{m.scale.e},{m.logSlots}"
+
+def showR (withEff : Bool) : R → String
+  | .error .err => "err"
+  | .error .panic => "panic"
+  | .error .oom => "oom"
+  | .ok r => if withEff then showMeta r.md ++ " " ++ showIVec r.eff else showMeta r.md
+
+def parseParams? : List String → Option (Params × List String)
+  | qs :: lcpr :: prec :: ci :: nth :: lms :: gal :: rlk :: rest => do
+    let qs ← parseVec? qs
+    let lcpr ← parseNat? lcpr
+    let prec ← parseNat? prec
+    let ci ← parseBool? ci
+    let nth ← parseNat? nth
+    let lms ← parseNat? lms
+    let gal ← parseVec? gal
+    let rlk ← parseBool? rlk
+    some (⟨qs, lcpr, prec, ci, nth, lms, gal, rlk⟩, rest)
+  | _ => none
+
+def parseOp? (op : String) (args : List String) : Option Op :=
+  match op, args with
+  | "addelt", [s, a, b, o] => do
+    some (.addElt (← parseBool? s) (← parseMeta? a) (← parseMeta? b) (← parseMeta? o))
+  | "addsc", [s, a, o, re, im] => do
+    some (.addScalar (← parseBool? s) (← parseMeta? a) (← parseMeta? o) (← parseSD? re) (← parseSD? im))
+  | "addvec", [a, o, n] => do some (.addVec (← parseMeta? a) (← parseMeta? o) (← parseNat? n))
+  | "mulelt", [r, a, b, o] => do
+    some (.mulElt (← parseBool? r) (← parseMeta? a) (← parseMeta? b) (← parseMeta? o))
+  | "mulsc", [a, o, re, im] => do
+    some (.mulScalar (← parseMeta? a) (← parseMeta? o) (← parseSD? re) (← parseSD? im))
+  | "mulvec", [a, o, n] => do some (.mulVec (← parseMeta? a) (← parseMeta? o) (← parseNat? n))
+  | "mtaelt", [r, al, a, b, o] => do
+    some (.mtaElt (← parseBool? r) (← parseAlias? al) (← parseMeta? a) (← parseMeta? b) (← parseMeta? o))
+  | "mtasc", [a, o, re, im] => do
+    some (.mtaScalar (← parseMeta? a) (← parseMeta? o) (← parseSD? re) (← parseSD? im))
+  | "mtavec", [al, a, o, n] => do
+    some (.mtaVec (← parseAlias? al) (← parseMeta? a) (← parseMeta? o) (← parseNat? n))
+  | "rescale", [a] => do some (.rescale (← parseMeta? a))
+  | "rescaleto", [a, m] => do some (.rescaleTo (← parseMeta? a) (← parseDy? m))
+  | "setscale", [a, t] => do some (.setScale (← parseMeta? a) (← parseDy? t))
+  | "scaleup", [a, o, s] => do some (.scaleUp (← parseMeta? a) (← parseMeta? o) (← parseDy? s))
+  | "droplevel", [a, n] => do some (.dropLevel (← parseMeta? a) (← parseNat? n))
+  | "rotate", [k, a, o] => do some (.rotate (← parseInt? k) (← parseMeta? a) (← parseMeta? o))
+  | "conj", [a, o] => do some (.conjugate (← parseMeta? a) (← parseMeta? o))
+  | "relin", [a, o] => do some (.relinearize (← parseMeta? a) (← parseMeta? o))
+  | _, _ => none
+
+def handle (toks : List String) : String :=
+  match toks with
+  | ["params", d] =>
+    match parseDy? d with
+    | some d => s!"{encodingPrecision d} {levelsConsumed d}"
+    | none => badOp
+  | op :: rest =>
+    match parseParams? rest with
+    | some (P, args) =>
+      match args.getLast? with
+      | some e =>
+        match parseOp? op args.dropLast with
+        | some o => showR (e == "e1") (step P o)
+        | none => badOp
+      | none => badOp
+    | none => badOp
+  | _ => badOp
 
 end Driver.C06
